@@ -435,3 +435,46 @@ pub fn maybe_divergent(r: &mut Rng) -> String {
     s.extend(chars[pos..].iter());
     s
 }
+
+/// Deeply nested programs (hundreds of levels), terminating quickly.
+pub fn deep(r: &mut Rng) -> String {
+    let d = 50 + r.below(350) as usize;
+    let mut s = String::from("+");
+    match r.below(3) {
+        0 => {
+            // +[[[[ ... - ]]]] : enters every level once, clears, leaves
+            for _ in 0..d {
+                s.push('[');
+            }
+            s.push('-');
+            for _ in 0..d {
+                s.push(']');
+            }
+            s.push('.');
+        }
+        1 => {
+            // nested with moves: [>+[>+[ ... ]<]<] style, each level touches the next cell
+            for _ in 0..d {
+                s.push_str("[>+");
+            }
+            s.push_str("[-]");
+            for _ in 0..d {
+                s.push_str("<-]");
+            }
+            s.push('.');
+        }
+        _ => {
+            // never entered (cell zero): [[[[...]]]]
+            s.clear();
+            for _ in 0..d {
+                s.push('[');
+            }
+            s.push_str("+.");
+            for _ in 0..d {
+                s.push(']');
+            }
+            s.push_str("+.");
+        }
+    }
+    s
+}
